@@ -28,4 +28,4 @@ class StmUserRegisters(Opcode):
                         processor.mem_a_set(address, 4, processor.registers.get_rmode(i, 0b10000))
                         address = add(address, 4, 32)
                 if bit_at(self.registers, 15):
-                    processor.mem_a_set(address, 4, processor.registers.pc_store_value())
+                    processor.mem_a_set(address, 4, processor.registers.get_pc())
